@@ -14,6 +14,7 @@ from markupsafe import Markup
 
 from liquid2.builtin import is_empty
 from liquid2.exceptions import LiquidTypeError
+from liquid2.exceptions import LiquidValueError
 from liquid2.filter import int_arg
 from liquid2.filter import with_environment
 from liquid2.undefined import is_undefined
@@ -124,6 +125,9 @@ def _null_default(obj: object) -> object:
     raise TypeError(f"Object of type {type(obj).__name__} is not JSON serializable")
 
 
+MAX_JSON_INDENT = 1000
+
+
 class JSON:
     """Serialize an object to a JSON formatted string.
 
@@ -145,6 +149,11 @@ class JSON:
     ) -> str:
         """Apply this filter to _left_ and return the result."""
         indent = int_arg(indent) if indent else None
+        if indent is not None and indent > MAX_JSON_INDENT:
+            # Every line of the result starts with that many spaces per level.
+            raise LiquidValueError(
+                f"indent must not be more than {MAX_JSON_INDENT}", token=None
+            )
         try:
             return json.dumps(left, default=self.default or _null_default, indent=indent)
         except TypeError as err:
